@@ -51,8 +51,9 @@ def midstep(p0: int, p1: int, p2: int, p3: int, actor: int, target: int, pn: int
     def mk(kind, who, tgt, prio, tag):
         def act():
             if kind == 'self':
-                who.clean_up()
-                removed.append(who)
+                if m.systems.systems.get(who.id) is who:       # (a second self-removal by the same system is a no-op)
+                    who.clean_up()
+                    removed.append(who)
             elif kind == 'remove':
                 if tgt.id in m.systems.systems:
                     m.systems.remove_system(tgt.id)
